@@ -68,7 +68,7 @@ DEEP["C15"] = DEEP["C15"] + ["CacheVerif.Proofs.DeepJanitor"]
 WRAP = {p: ["CacheVerif.Proofs.Wrappers"] for p in ("C03", "C04", "C05", "C11")}
 # the lookup path of MapOf printed from the source (go2deep -table): interpreter(printed Load) = word-filtered search =
 # key search of M3 = M3's load step, for every heap and key
-LOAD = {p: ["CacheVerif.Proofs.Words", "CacheVerif.Proofs.DeepLoad"] for p in ("C04", "C10", "C11", "C16")}
+LOAD = {p: ["CacheVerif.Proofs.Words", "CacheVerif.Proofs.DeepLoad", "CacheVerif.Proofs.DeepLoadM"] for p in ("C03", "C04", "C10", "C11", "C16")}
 
 # the concurrent cache model M5 is tied to the source text by: solo run of M5 = sequential step (ConcCacheSolo), and
 # steps of M5 = atomic actions the tracing interpreter records on the generated syntax (DeepTrace, both twins)
@@ -111,7 +111,7 @@ def common(run, modules):
         run.oblige("lake build %s (the sequential table model makes the calls of doCompute the methods printed from the working tree make; with doCompute = specDc each is the builtin-map method of its name)" % wm, wok_, wlog_)
     for lm in LOAD.get(run.pid, []):
         lok_, llog_ = R.lake_build(run, [lm], timeout=900)
-        run.oblige("lake build %s (the word-filtered search over the machine-translated leaf functions is the key search of the table model; the interpreter on the body of MapOf.Load printed from the working tree computes it, for every heap and key)" % lm, lok_, llog_)
+        run.oblige("lake build %s (the word-filtered search over the machine-translated leaf functions is the key search of the table model; the interpreter on the bodies of MapOf.Load / Map.Load printed from the working tree computes it, for every heap and key)" % lm, lok_, llog_)
     for tm in TRACE.get(run.pid, []):
         tok_, tlog_ = R.lake_build(run, [tm], timeout=900)
         run.oblige("lake build %s (the concurrent cache model M5, run by one thread, computes the sequential step and takes exactly the atomic actions the tracing interpreter records on the method bodies printed from the working tree)" % tm, tok_, tlog_)
